@@ -63,19 +63,73 @@ func (e event) String() string {
 type core struct {
 	inner remote.Storage
 	log   []event
+	// Storage-level mode (gated): a scheduling decision is taken only when every unfinished thread
+	// is parked at a storage call. While one thread is "in flight" (between two of its storage
+	// calls) the storage points of the others are disabled, so its mutex/atomic points are forced
+	// moves; the storage points are marked Yield, so that choosing any thread is free of deviation
+	// cost and bound 0 already enumerates ALL interleavings of the storage calls. Sound because the
+	// code between two storage calls of a provider touches only that provider's state (one thread
+	// per provider; the store is the only shared object).
+	gated    bool
+	nthreads int
+	started  int // threads that reached the gate
+	passed   int // threads that passed the gate
+	inflight int // provider whose thread is between two storage calls, -1: none
 }
 
-// point parks the calling managed thread before a storage call. The explorer's state cache keys a
-// state by the threads' history hashes, which only the sync/atomic shims advance: a scheduling
-// point that leaves the hash unchanged makes "before the call" and "after the call" the same state
-// and the cache prunes everything behind it (measured: the cached run missed outcomes the
-// cache-less run found). Hence the call is mixed into the thread's history as soon as it resumes;
-// the order of the calls of different threads is captured by the inner store's hooked mutex.
-func point(kind string) {
-	if t := vsched.Cur(); t != nil {
-		t.Point(&vsched.Op{Kind: kind})
-		t.Observe(vlib.Hash(kind))
+func observe(t *vsched.Thread, kind string) {
+	// The explorer's state cache keys a state by the threads' history hashes, which only the
+	// sync/atomic shims advance: a scheduling point that leaves the hash unchanged makes "before the
+	// call" and "after the call" the same state and the cache prunes everything behind it (measured:
+	// the cached run missed outcomes the cache-less run found). Hence the call is mixed into the
+	// thread's history as soon as it resumes; the order of the calls of different threads is
+	// captured by the inner store's hooked mutex.
+	t.Observe(vlib.Hash(kind))
+}
+
+// point parks the calling managed thread before a storage call.
+func (c *core) point(prov int, kind string) {
+	t := vsched.Cur()
+	if t == nil {
+		return
 	}
+	if c.gated {
+		c.inflight = -1
+		t.Point(&vsched.Op{Kind: kind, Yield: true, Enabled: func() bool { return c.inflight < 0 && c.passed == c.nthreads }})
+		c.inflight = prov
+	} else {
+		t.Point(&vsched.Op{Kind: kind})
+	}
+	observe(t, kind)
+}
+
+// gate is the first statement of a thread body in storage-level mode: the threads pass it one by
+// one in arrival order, each running up to its first storage call, before any decision is taken.
+func (c *core) gate(prov int) {
+	t := vsched.Cur()
+	if t == nil || !c.gated {
+		return
+	}
+	me := c.started
+	c.started++
+	t.Point(&vsched.Op{Kind: "gate", Yield: true, Enabled: func() bool {
+		return c.started == c.nthreads && c.inflight < 0 && c.passed == me
+	}})
+	c.passed++
+	c.inflight = prov
+	observe(t, "gate")
+}
+
+// local is a storage call without effect on the shared store (CreateObject of the in-memory store
+// only allocates a local writer, Write fills its buffer): a plain scheduling point, hence a
+// decision in full mode and a forced move in storage-level mode.
+func (c *core) local(prov int, kind string) {
+	t := vsched.Cur()
+	if t == nil {
+		return
+	}
+	t.Point(&vsched.Op{Kind: kind})
+	observe(t, kind)
 }
 
 // pstore is provider prov's view of the shared store.
@@ -93,7 +147,7 @@ func (s *pstore) ev(op, name string, ok bool, n int) {
 func (s *pstore) Close() error { return nil }
 
 func (s *pstore) ReadObject(ctx context.Context, name string) (remote.ObjectReader, int64, error) {
-	point("remote.ReadObject " + name)
+	s.c.point(s.prov, "remote.ReadObject "+name)
 	r, sz, err := s.c.inner.ReadObject(ctx, name)
 	s.ev("open", name, err == nil, 0)
 	if err != nil {
@@ -109,7 +163,7 @@ type preader struct {
 }
 
 func (r *preader) ReadAt(ctx context.Context, p []byte, off int64) error {
-	point("remote.ReadAt " + r.name)
+	r.s.c.point(r.s.prov, "remote.ReadAt "+r.name)
 	err := r.r.ReadAt(ctx, p, off)
 	r.s.ev("readat", r.name, err == nil, 0)
 	return err
@@ -119,7 +173,7 @@ func (r *preader) ReadAt(ctx context.Context, p []byte, off int64) error {
 func (r *preader) Close() error { return r.r.Close() }
 
 func (s *pstore) CreateObject(name string) (io.WriteCloser, error) {
-	point("remote.CreateObject " + name)
+	s.c.local(s.prov, "remote.CreateObject "+name)
 	w, err := s.c.inner.CreateObject(name)
 	s.ev("create", name, err == nil, 0)
 	if err != nil {
@@ -135,34 +189,34 @@ type pwriter struct {
 }
 
 func (w *pwriter) Write(p []byte) (int, error) {
-	point("remote.Write " + w.name)
+	w.s.c.local(w.s.prov, "remote.Write "+w.name)
 	return w.w.Write(p)
 }
 
 // Close is where the object becomes visible in the store.
 func (w *pwriter) Close() error {
-	point("remote.CloseWriter " + w.name)
+	w.s.c.point(w.s.prov, "remote.CloseWriter "+w.name)
 	err := w.w.Close()
 	w.s.ev("put", w.name, err == nil, 0)
 	return err
 }
 
 func (s *pstore) List(prefix, delimiter string) ([]string, error) {
-	point("remote.List " + prefix)
+	s.c.point(s.prov, "remote.List "+prefix)
 	res, err := s.c.inner.List(prefix, delimiter)
 	s.ev("list", prefix, err == nil, len(res))
 	return res, err
 }
 
 func (s *pstore) Delete(name string) error {
-	point("remote.Delete " + name)
+	s.c.point(s.prov, "remote.Delete "+name)
 	err := s.c.inner.Delete(name)
 	s.ev("delete", name, err == nil, 0)
 	return err
 }
 
 func (s *pstore) Size(name string) (int64, error) {
-	point("remote.Size " + name)
+	s.c.point(s.prov, "remote.Size "+name)
 	n, err := s.c.inner.Size(name)
 	s.ev("size", name, err == nil, 0)
 	return n, err
@@ -183,6 +237,7 @@ type scen struct {
 	name    string
 	nprov   int
 	pre     []int    // providers (besides the creator P1) that attach in Setup, each from P1's backing
+	gated   bool     // storage-level mode: decisions only at storage calls, all interleavings at bound 0
 	threads [][]step // threads[i] runs on provider i
 }
 
@@ -287,7 +342,12 @@ func (s *h) readBack(i int) string {
 }
 
 func (s *h) Setup() {
-	s.core = &core{inner: remote.NewInMem()}
+	s.core = &core{inner: remote.NewInMem(), gated: s.sc.gated, inflight: -1}
+	for _, st := range s.sc.threads {
+		if len(st) > 0 {
+			s.core.nthreads++
+		}
+	}
 	s.backing = make([]objstorage.RemoteObjectBacking, s.sc.nprov)
 	s.res = make([]result, s.sc.nprov)
 	s.data = make([]byte, 48)
@@ -327,6 +387,8 @@ func (s *h) Threads() []func() {
 		}
 		fs = append(fs, func() {
 			r := &s.res[i]
+			defer func() { s.core.inflight = -1 }()
+			s.core.gate(i)
 			for _, st := range steps {
 				switch st.op {
 				case "attach":
@@ -393,8 +455,14 @@ func (s *h) renderLog() string {
 	return b.String()
 }
 
+// ctx lets judge count the distinct storage-call logs (c.State).
+var ctx *vlib.Ctx
+
 func judge(hh vsched.Harness, x *vsched.Exec) (outcome, class, desc string) {
 	s := hh.(*h)
+	if ctx != nil && s.torn {
+		ctx.State(vlib.Hash("log", s.sc.name, s.renderLog()))
+	}
 	if !s.torn {
 		return "no-teardown", "harness-no-teardown", "Teardown did not run"
 	}
@@ -414,9 +482,17 @@ func judge(hh vsched.Harness, x *vsched.Exec) (outcome, class, desc string) {
 		holder[i] = true
 	}
 	deletedBy := -1
+	// A reference is given up by calling Remove. The code between that call and Remove's first
+	// storage call is local to the provider, so an equivalent execution has the call immediately
+	// before that storage call: the provider counts as a holder until then.
+	releasing := map[int]bool{}
 	for k, e := range s.core.log {
 		exists := shadow[e.Name]
 		bad := false
+		if releasing[e.Prov] {
+			delete(releasing, e.Prov)
+			delete(holder, e.Prov)
+		}
 		switch e.Op {
 		case "create":
 		case "put":
@@ -451,9 +527,7 @@ func judge(hh vsched.Harness, x *vsched.Exec) (outcome, class, desc string) {
 				}
 			}
 		case "remove-call":
-			// the reference is given up here; up to this point the object must have existed
-			// (checked after every earlier step)
-			delete(holder, e.Prov)
+			releasing[e.Prov] = true
 		case "remove-ret":
 			if !e.OK {
 				return fail("unexpected-remove-error", fmt.Sprintf("step %d: Remove of P%d failed on an infallible store: %v", k, e.Prov+1, s.res[e.Prov].RemoveErr))
@@ -554,48 +628,68 @@ func judge(hh vsched.Harness, x *vsched.Exec) (outcome, class, desc string) {
 	return outcome, "", ""
 }
 
-func scenarios() []scen {
+type plan struct {
+	sc                  scen
+	quick, thorough     int // preemption bounds (storage-level mode: 0 = all interleavings)
+	weight              float64
+	quickTier, thorTier bool
+}
+
+func plans() []plan {
 	A := func(from int) step { return step{op: "attach", from: from} }
 	R := step{op: "read"}
 	X := step{op: "remove"}
-	return []scen{
-		// S1: the creator removes while P2 attaches from the creator's backing.
-		{name: "S1-remove|attach", nprov: 2, threads: [][]step{{X}, {A(0), R}}},
-		// S4: ... and the attacher gives its reference up again.
-		{name: "S4-remove|attach-read-remove", nprov: 2, threads: [][]step{{X}, {A(0), R, X}}},
-		// S2: two attachers.
-		{name: "S2-remove|attach|attach", nprov: 3, threads: [][]step{{X}, {A(0), R}, {A(0), R}}},
-		// S3: P2 attached beforehand; P3 attaches from P2's backing while P2 and P1 remove.
-		{name: "S3-remove|remove|attach-from-P2", nprov: 3, pre: []int{1}, threads: [][]step{{X}, {X}, {A(1), R}}},
-		// S5: S2 with attachers that remove again: the last of three must delete.
-		{name: "S5-remove|attach-remove|attach-remove", nprov: 3, threads: [][]step{{X}, {A(0), X}, {A(0), X}}},
+	// S1: the creator removes while P2 attaches from the creator's backing (and reads).
+	s1 := [][]step{{X}, {A(0), R}}
+	// S4: ... and the attacher gives its reference up again.
+	s4 := [][]step{{X}, {A(0), R, X}}
+	// S2: two attachers.
+	s2 := [][]step{{X}, {A(0), R}, {A(0), R}}
+	// S3: P2 attached in Setup; P3 attaches from P2's backing while P2 and P1 remove.
+	s3 := [][]step{{X}, {X}, {A(1), R}}
+	// S5: S2 with attachers that remove again: the last of three must delete.
+	s5 := [][]step{{X}, {A(0), X}, {A(0), X}}
+	// The in-thread read adds two storage calls per attacher; in storage-level mode with three
+	// threads it is left to the end-of-execution read (the shadow store already decides existence at
+	// every step).
+	s2n := [][]step{{X}, {A(0)}, {A(0)}}
+	s3n := [][]step{{X}, {X}, {A(1)}}
+	return []plan{
+		// storage-level mode: every interleaving of the storage calls, no bound
+		{sc: scen{name: "S1-all", nprov: 2, threads: s1, gated: true}, weight: 0.3, quickTier: true, thorTier: true},
+		{sc: scen{name: "S4-all", nprov: 2, threads: s4, gated: true}, weight: 0.3, quickTier: true, thorTier: true},
+		{sc: scen{name: "S3-all", nprov: 3, pre: []int{1}, threads: s3n, gated: true}, weight: 2, quickTier: true, thorTier: true},
+		{sc: scen{name: "S2-all", nprov: 3, threads: s2n, gated: true}, weight: 2, quickTier: true, thorTier: true},
+		{sc: scen{name: "S5-all", nprov: 3, threads: s5, gated: true}, weight: 4, quickTier: true, thorTier: true},
+		{sc: scen{name: "S3r-all", nprov: 3, pre: []int{1}, threads: s3, gated: true}, weight: 2, thorTier: true},
+		{sc: scen{name: "S2r-all", nprov: 3, threads: s2, gated: true}, weight: 4, thorTier: true},
+		// full mode: every hooked mutex/atomic operation is a scheduling point as well
+		{sc: scen{name: "S1-full", nprov: 2, threads: s1}, quick: 2, thorough: 4, weight: 0.5, quickTier: true, thorTier: true},
+		{sc: scen{name: "S4-full", nprov: 2, threads: s4}, quick: 2, thorough: 4, weight: 0.5, quickTier: true, thorTier: true},
+		{sc: scen{name: "S2-full", nprov: 3, threads: s2}, quick: 1, thorough: 2, weight: 1, quickTier: true, thorTier: true},
+		{sc: scen{name: "S3-full", nprov: 3, pre: []int{1}, threads: s3}, quick: 1, thorough: 2, weight: 1, quickTier: true, thorTier: true},
+		{sc: scen{name: "S5-full", nprov: 3, threads: s5}, quick: 1, thorough: 2, weight: 1, quickTier: true, thorTier: true},
 	}
 }
 
 func TestCheck(t *testing.T) {
 	vlib.Main(t, "C41", func(c *vlib.Ctx) {
 		verbose := c.ReplayPath() != "" || os.Getenv("C41_VERBOSE") != ""
-		type bounds struct {
-			q, t int
-			w    float64
-		}
-		bs := map[string]bounds{
-			"S1-remove|attach":                      {3, 5, 1},
-			"S4-remove|attach-read-remove":          {2, 4, 1.5},
-			"S2-remove|attach|attach":               {2, 3, 3},
-			"S3-remove|remove|attach-from-P2":       {2, 3, 3},
-			"S5-remove|attach-remove|attach-remove": {1, 3, 3},
-		}
+		ctx = c
 		var list []d1x.Scenario
-		for _, sc := range scenarios() {
-			sc := sc
-			b := bs[sc.name]
-			if v := os.Getenv("C41_BOUND"); v != "" { // experiments only
-				fmt.Sscan(v, &b.q)
-				b.t = b.q
+		for _, p := range plans() {
+			p := p
+			if c.ReplayPath() == "" && os.Getenv("VERIF_SCENARIO") == "" {
+				if c.Thorough() && !p.thorTier || !c.Thorough() && !p.quickTier {
+					continue
+				}
 			}
-			list = append(list, d1x.Scenario{Name: sc.name, QuickBound: b.q, ThoroughBound: b.t, Weight: b.w, Judge: judge,
-				New: func() vsched.Harness { return &h{sc: sc, verbose: verbose} }})
+			if v := os.Getenv("C41_BOUND"); v != "" && !p.sc.gated { // experiments only
+				fmt.Sscan(v, &p.quick)
+				p.thorough = p.quick
+			}
+			list = append(list, d1x.Scenario{Name: p.sc.name, QuickBound: p.quick, ThoroughBound: p.thorough, Weight: p.weight, Judge: judge,
+				New: func() vsched.Harness { return &h{sc: p.sc, verbose: verbose} }})
 		}
 		d1x.Run(t, c, list)
 	})
